@@ -8,7 +8,7 @@ import (
 	"verif/sim/scen"
 )
 
-var words = []string{"alpha", "beta", "gamma", "delta", "hello world", "x", "snap", "0", "42", "line", "Test", "a b c", "ünï", "tab\there", "{}", "(1)", "- item", "-- x", "key: value", "<tag/>"}
+var words = []string{"alpha", "beta", "gamma", "delta", "hello world", "x", "snap", "0", "42", "line", "Test", "a b c", "ünï", "tab\there", "{}", "(1)", "- item", "-- x", "key: value", "<tag/>", "100%", "%d items", "a%20b %s"}
 
 // plain: parseable by the structural checker (no line starting with '[', none
 // equal to the terminator or its escape, no carriage return).
